@@ -33,7 +33,7 @@ RAW_RX = {
 }
 
 
-QUICK_BUDGET = {"cases": 320, "deadline_s": 110, "case_timeout_s": 120, "floors": {"submissions": 800, "start_events_checked": 400, "never_started_checked": 40, "local_enqueues": 100, "pool_spawns": 100}}
+QUICK_BUDGET = {"cases": 320, "deadline_s": 170, "case_timeout_s": 120, "floors": {"submissions": 478, "start_events_checked": 275, "never_started_checked": 40, "local_enqueues": 100, "pool_spawns": 55}}
 THOROUGH_FACTOR = 36  # thorough = the same workload with 36x the cases (floors scale along)
 
 
